@@ -3,6 +3,8 @@
 use crate::check::{self, e1_report, run_e1, Report, Tier};
 use crate::families;
 use crate::mon_local as ml;
+use crate::mon_state as ms;
+use crate::mon_term as mt;
 use crate::netmc::{Cfg, Monitor};
 use crate::script::Script;
 
@@ -15,6 +17,13 @@ pub fn stream_map(tier: Tier) -> Vec<Script> {
     v
 }
 
+pub fn seq_scripts(tier: Tier) -> Vec<Script> {
+    match tier {
+        Tier::Quick => families::seq_family(3, 0),
+        Tier::Thorough => families::seq_family(4, 1),
+    }
+}
+
 pub fn stream_map_err(tier: Tier) -> Vec<Script> {
     let lvl = if tier == Tier::Quick { 0 } else { 1 };
     let mut v = stream_map(tier);
@@ -23,9 +32,25 @@ pub fn stream_map_err(tier: Tier) -> Vec<Script> {
 }
 
 fn cfg_for(tier: Tier) -> Cfg {
+    let budget = |d: f64| std::env::var("VERIF_BUDGET_S").ok().and_then(|s| s.parse().ok()).unwrap_or(d);
+    let now = std::time::Instant::now();
     match tier {
-        Tier::Quick => Cfg { dup: true, deliver_return: false, wall_cap_s: 40.0, state_cap: 60_000, ..Default::default() },
-        Tier::Thorough => Cfg { dup: true, deliver_return: true, wall_cap_s: 900.0, state_cap: 400_000, ..Default::default() },
+        Tier::Quick => Cfg {
+            dup: true,
+            deliver_return: false,
+            wall_cap_s: 30.0,
+            state_cap: 60_000,
+            deadline: Some(now + std::time::Duration::from_secs_f64(budget(75.0))),
+            ..Default::default()
+        },
+        Tier::Thorough => Cfg {
+            dup: true,
+            deliver_return: true,
+            wall_cap_s: 900.0,
+            state_cap: 400_000,
+            deadline: Some(now + std::time::Duration::from_secs_f64(budget(2400.0))),
+            ..Default::default()
+        },
     }
 }
 
@@ -42,6 +67,14 @@ pub fn monitor_for(id: &str, s: &Script) -> Option<Box<dyn Monitor>> {
         "C10" => Box::new(ml::C10::default()),
         "C12" => Box::new(ml::C12::new(&s.ast)),
         "C20" => Box::new(ml::C20::default()),
+        "C08" => Box::new(mt::C08::new(&s.ast, 3)),
+        "C11" => Box::new(mt::C11::new(&s.ast)),
+        "C13" => Box::new(mt::C13::new(&s.ast)),
+        "C05" => Box::new(ms::C05::new(s.family == "SEQ")),
+        "C06" => Box::new(ms::C06::new()),
+        "C16" => Box::new(ms::C16::new()),
+        "C17" => Box::new(ms::C17::new(s.family != "SEQ")),
+        "C19" => Box::new(ms::C19::new(s.family == "SEQ")),
         _ => return None,
     })
 }
@@ -94,6 +127,53 @@ pub fn check(id: &str, tier: Tier) -> Result<Report, String> {
             let scripts = stream_map_err(tier);
             let res = run_e1("C20", &scripts, &cfg, &|s| monitor_for("C20", s).unwrap(), &["O"]);
             e1_report("C20", "every distinct run executed three times in-process (fresh HashMap seeds per map instance), outcomes compared after decoding; non-trivial = runs whose output stores hold >= 3 entries", &res, &cfg, BOUNDS)
+        }
+        "C08" => {
+            let mut scripts = seq_scripts(tier);
+            scripts.extend(stream_map(tier));
+            let res = run_e1("C08", &scripts, &cfg, &|s| monitor_for("C08", s).unwrap(), &["O", "O2"]);
+            e1_report("C08", "for every quiescent state and every state at depth <= 3: the set of the peers' data merged at observers in every order and in right-nested groupings, and (quiescent states) by every participating peer starting from its own data; same results by content id; identical traces modulo request senders for stream-free scripts; non-trivial = data sets with >= 3 pairwise different members", &res, &cfg, BOUNDS)
+        }
+        "C11" => {
+            let scripts = stream_map(tier);
+            let res = run_e1("C11", &scripts, &cfg, &|s| monitor_for("C11", s).unwrap(), &["O"]);
+            e1_report("C11", "per state: all data of one history (held or in flight) bind one canon result, all consumers get the same value; per first canonicalization: its elements equal the stream writes preceding it in that run, by (generation, position); non-trivial = states where some data holds more stream values than the canon contains", &res, &cfg, BOUNDS)
+        }
+        "C13" => {
+            let scripts = stream_map(tier);
+            let res = run_e1("C13", &scripts, &cfg, &|s| monitor_for("C13", s).unwrap(), &["O"]);
+            e1_report("C13", "per local observation (first canonicalization at a peer): observed list = stream writes replayed/performed before it; per state: each value visited at most once per peer; per quiescent state: visits = values of the merged stream; non-trivial = runs where a value reaches the peer through both prev and current data", &res, &cfg, BOUNDS)
+        }
+        "C16" => {
+            let scripts = seq_scripts(tier);
+            let res = run_e1("C16", &scripts, &cfg, &|s| monitor_for("C16", s).unwrap(), &["O"]);
+            let mut rep = e1_report("C16", "every call request of every schedule compared with the call multiset of the independent sequential evaluator RefEval; non-trivial = scripts in which RefEval takes an xor right branch, skips a match body or iterates a fold >= 2 times (counted per script)", &res, &cfg, BOUNDS);
+            rep.cov("requests_compared", res.extras[0]["requests_compared_with_refeval"].clone());
+            rep
+        }
+        "C17" => {
+            let mut scripts = seq_scripts(tier);
+            scripts.extend(stream_map(tier));
+            let res = run_e1("C17", &scripts, &cfg, &|s| monitor_for("C17", s).unwrap(), &["O"]);
+            e1_report("C17", "tetraplets of every argument of every distinct call request compared with RefEval (SEQ) or with the producer embedded in the value (STREAM/MAP consumers); non-trivial = arguments whose producer is another peer than the one issuing the request", &res, &cfg, BOUNDS)
+        }
+        "C05" => {
+            let mut scripts = seq_scripts(tier);
+            scripts.extend(stream_map(tier));
+            let res = run_e1("C05", &scripts, &cfg, &|s| monitor_for("C05", s).unwrap(), &["O"]);
+            e1_report("C05", "ghost multisets of issued/answered requests per peer; at-most-once on every transition; every answered result recorded exactly once in every later data of the peer; non-trivial = deliveries to a peer that has pending requests", &res, &cfg, BOUNDS)
+        }
+        "C06" => {
+            let scripts = seq_scripts(tier);
+            let cfg = Cfg { bogus: true, ..cfg.clone() };
+            let res = run_e1("C06", &scripts, &cfg, &|s| monitor_for("C06", s).unwrap(), &["O"]);
+            e1_report("C06", "request ids against a ghost maximum per peer; argument values of downstream calls against RefEval (routing); one result under a non-pending id per path (0, max+1, max+7, consumed id, 2^32-1); non-trivial = states with >= 2 pending requests on one peer plus bogus-id runs", &res, &cfg, BOUNDS)
+        }
+        "C19" => {
+            let mut scripts = seq_scripts(tier);
+            scripts.extend(stream_map(tier));
+            let res = run_e1("C19", &scripts, &cfg, &|s| monitor_for("C19", s).unwrap(), &["O"]);
+            e1_report("C19", "per run: requests only for calls addressed to the peer, new results attributed to the peer, next peers without self/duplicates, newly sent entries imply next peers; per quiescent state: all peers' data merged at an observer hold no sent-but-unexecuted entry; non-trivial = runs that newly mark >= 2 entries as sent", &res, &cfg, BOUNDS)
         }
         _ => return Err(format!("no check for {id}")),
     };
